@@ -4,7 +4,7 @@ From Coq Require Import List Arith ZArith Lia Bool Permutation.
 Import ListNotations.
 From SG Require Import Base.Sums Base.ScalarExt Base.Cmp NumPy.Index NumPy.Tensor NumPy.Gather NumPy.TensorFn
   NumPy.Broadcast NumPy.Reduce NumPy.Matmul NumPy.Concat NumPy.Overloads
-  Proofs.IdxSums Proofs.BcastProofs Proofs.ArithProofs Proofs.ReduceProofs Proofs.MatmulProofs Proofs.MaxProofs Proofs.SpecProofs.
+  Proofs.IdxSums Proofs.BcastProofs Proofs.ArithProofs Proofs.ReduceProofs Proofs.MatmulProofs Proofs.Matmul1dProofs Proofs.MaxProofs Proofs.SpecProofs.
 
 Section S.
 Context {A:Type} `{ScalarLaws A} `{!ScalarMulLaws A}.
@@ -72,56 +72,25 @@ Theorem max_unique_is_selected (l:list A) d K : K < length l ->
 Proof. apply (argbest_unique sleb sleb_refl sleb_trans sleb_total). Qed.
 End O.
 
-(* ---------- forward accepted, backward raises ---------- *)
-Section R.
-Context {A:Type} `{Scalar A}.
-
-Lemma swap_last2_low_rank (t:tensor A) : rank t < 2 -> swap_last2 t = None.
-Proof.
-  intros Hr. unfold swap_last2. destruct (last2_of (tshape t)) as [|r [|c [|? ?]]]; auto.
-  replace (2 <=? rank t) with false by (symmetry; apply Nat.leb_gt; exact Hr). reflexivity.
-Qed.
-Theorem matmul_backward_1d_raises (g a b:tensor A) : rank a < 2 \/ rank b < 2 -> matmul_backward g a b = None.
-Proof.
-  intros [Hr|Hr]; unfold matmul_backward.
-  - destruct (swap_last2 b); cbn [obind]; auto. destruct (np_matmul g t); cbn [obind]; auto.
-    now rewrite (swap_last2_low_rank a Hr).
-  - now rewrite (swap_last2_low_rank b Hr).
-Qed.
-Theorem addmm_backward_1d_raises (g a b c:tensor A) : rank b < 2 \/ rank c < 2 -> addmm_backward g a b c = None.
-Proof.
-  intros Hr. unfold addmm_backward. destruct (addmm_prod_shape _ _); cbn [obind]; auto.
-  destruct (add_backward _ _ _); cbn [obind]; auto. now rewrite (matmul_backward_1d_raises _ b c Hr).
-Qed.
-Theorem linear_backward_1d_raises (g x w:tensor A) bias : rank x < 2 -> linear_backward g x w bias = None.
-Proof.
-  intros Hr. unfold linear_backward. destruct (bias_truth bias) as [bt|]; cbn [obind]; auto.
-  destruct bias as [b|]; [destruct bt|].
-  - now rewrite (addmm_backward_1d_raises g b x (np_T w) (or_introl Hr)).
-  - now rewrite (matmul_backward_1d_raises g x (np_T w) (or_introl Hr)).
-  - now rewrite (matmul_backward_1d_raises g x (np_T w) (or_introl Hr)).
-Qed.
-End R.
-
-(* 0-d operand with an int dim (NumPy's ufunc reductions accept axis 0 / -1 on a 0-d array): the forward is accepted,
-   the gradient produced has shape (1,) and cannot be accumulated into the () buffer *)
-Theorem sum_0d_int_dim_backward_raises_proof :
-  let a : tensor Z := scalar0d 5%Z in let g : tensor Z := scalar0d 1%Z in
+(* ---------- argument forms whose backward used to raise (repaired): computed instances over Z ---------- *)
+Theorem sum_0d_int_dim_backward_ok :
+  let a : tensor Z := scalar0d 5%Z in let g : tensor Z := scalar0d 3%Z in
   sum_forward a (AxInt 0) false <> None /\
-  (r <- sum_backward g (tshape a) (AxInt 0) false ;; accumulate (zeros (tshape a)) r) = None.
+  option_map (@to_list Z) (r <- sum_backward g (tshape a) (AxInt 0) false ;; accumulate (zeros (tshape a)) r) = Some [3%Z].
 Proof. split. discriminate. reflexivity. Qed.
-Theorem max_0d_int_dim_backward_raises_proof :
-  let a : tensor Z := scalar0d 5%Z in let g : tensor Z := scalar0d 1%Z in
-  max_forward a (AxInt 0) false <> None /\ max_backward g a (AxInt 0) false = None.
+Theorem max_0d_int_dim_backward_ok :
+  let a : tensor Z := scalar0d 5%Z in let g : tensor Z := scalar0d 3%Z in
+  max_forward a (AxInt (-1)) false <> None /\
+  option_map (@to_list Z) (r <- max_backward g a (AxInt (-1)) false ;; accumulate (zeros (tshape a)) r) = Some [3%Z].
 Proof. split. discriminate. reflexivity. Qed.
-Theorem addmm_1d_forward_accepted :
-  let a : tensor Z := scalar0d 0%Z in let b : tensor Z := of_list [2;2] [1;2;3;4]%Z in let c : tensor Z := of_list [2] [1;1]%Z in
-  addmm_forward a b c <> None.
-Proof. discriminate. Qed.
-Theorem linear_1d_forward_accepted :
-  let x : tensor Z := of_list [3] [1;2;3]%Z in let w : tensor Z := of_list [1;3] [1;1;1]%Z in
-  linear_forward x w None <> None.
-Proof. discriminate. Qed.
+Theorem max_tuple_dim_backward_ok :
+  option_map (@to_list Z) (max_backward (of_list [2] [5;7]%Z) (of_list [2;2;2] [1;3;3;0; 4;2;4;1]%Z) (AxTuple [-1;1]%Z) false)
+  = Some [0;5;0;0; 7;0;0;0]%Z.
+Proof. reflexivity. Qed.
+Theorem linear_1d_backward_ok :
+  let x : tensor Z := of_list [3] [1;2;3]%Z in let w : tensor Z := of_list [2;3] [1;0;2; 0;1;1]%Z in let g : tensor Z := of_list [2] [5;7]%Z in
+  option_map (fun r => (to_list (fst (fst r)), to_list (snd (fst r)))) (linear_backward g x w None) = Some ([5;7;17]%Z, [5;10;15; 7;14;21]%Z).
+Proof. reflexivity. Qed.
 
 (* ---------- fused ops ---------- *)
 Section F.
